@@ -27,7 +27,10 @@ from .values import (
     SuperProxy,
 )
 
-_MISSING = object()
+from .values import MISSING as _MISSING
+
+
+_INFEASIBLE = object()
 
 
 class _Return(Exception):
@@ -599,6 +602,10 @@ class AstMixin:
                 raise Unsupported(f"binary op {dn} on {type(a).__name__}/{type(b).__name__}")
             return r
         if isinstance(a, SymRatio) or isinstance(b, SymRatio):
+            if op is ast.Add:
+                return a + b
+            if op is ast.Sub and isinstance(a, SymRatio):
+                return a - b
             raise Unsupported("float arithmetic (ratio)")
         if isinstance(a, (SList, SStr, SDict)) or isinstance(b, (SList, SStr, SDict)):
             return self.container_binop(op, a, b)
@@ -651,6 +658,9 @@ class AstMixin:
                 # evaluate the right operand under the guard, merge as a formula
                 guard = cur if is_and else sym.Not(cur)
                 r = self.eval_guarded(nxt, env, guard)
+                if r is _INFEASIBLE:
+                    # the right operand is never evaluated on this path
+                    continue
                 if r is not _MISSING and isinstance(r, (SBool, bool)):
                     cur = sym.And(cur, r) if is_and else sym.Or(cur, r)
                     continue
@@ -677,9 +687,14 @@ class AstMixin:
             self.solver.add(g)
             self.no_fork += 1
             try:
-                res = self.eval(e, env)
+                if not self.feasible(z3.BoolVal(True)):
+                    res = _INFEASIBLE
+                else:
+                    res = self.eval(e, env)
             except (_NoFork, PyRaise):
                 res = _MISSING
+            except PathEnd:
+                res = _INFEASIBLE
             finally:
                 self.no_fork -= 1
             if len(self.writes) != wmark:
@@ -690,6 +705,8 @@ class AstMixin:
             del self.pc[n:]
             del self.pc_dec[n:]
             self.solver.pop()
+        if res is _INFEASIBLE:
+            return res
         if res is not _MISSING and extra:
             self.assume(sym.mk_bool(z3.Implies(g, z3.And(*extra))))
         return res
@@ -700,8 +717,14 @@ class AstMixin:
             return self.eval(e.body if c else e.orelse, env)
         if _pure_expr(e.body) and _pure_expr(e.orelse):
             a = self.eval_guarded(e.body, env, c)
+            if a is _INFEASIBLE:
+                self.assume(sym.Not(c), decision=True)
+                return self.eval(e.orelse, env)
             if a is not _MISSING:
                 b = self.eval_guarded(e.orelse, env, sym.Not(c))
+                if b is _INFEASIBLE:
+                    self.assume(c, decision=True)
+                    return a
                 if b is not _MISSING:
                     try:
                         return sym.ite(c, a, b)
@@ -1160,6 +1183,19 @@ class SymRatio:
 
     def __init__(self, num: Any, den: Any, eng: Any) -> None:
         self.num, self.den = num, den
+        self.eng = eng
+
+    def __add__(self, o: Any) -> Any:
+        if isinstance(o, (int, SInt)) and not isinstance(o, bool):
+            return SymRatio(self.num + o * self.den, self.den, self.eng)
+        raise Unsupported("float arithmetic (ratio)")
+
+    __radd__ = __add__
+
+    def __sub__(self, o: Any) -> Any:
+        if isinstance(o, (int, SInt)) and not isinstance(o, bool):
+            return SymRatio(self.num - o * self.den, self.den, self.eng)
+        raise Unsupported("float arithmetic (ratio)")
 
 
 class _NS:
